@@ -63,11 +63,12 @@ def collect(ctx):
     for i in range(6 * k):
         p = {"k_nn": 3, "sampling_times": 30, "alpha": rng.choice([0.05, 0.2])}
         ts.append(L.from_nndvi(drv_nn.run_nndvi(p, drv_nn.nndvi_history(rng, 8), rng.randrange(10 ** 6))))
-    for i in range(5 * k):
+    for i in range(8 * k):
         p = drv_pca.params(rng)
         p["window_size"] = rng.choice([20, 30])
+        p["online_scaling"] = i % 2 == 0
         W = p["window_size"]
-        xs = drv_pca.stream(rng, 8 * W, 3, W)
+        xs = drv_pca.stream(rng, 8 * W, 3, W) if i % 4 < 2 else drv_pca.restless_stream(rng, 8 * W, 3, W)
         ts.append(L.from_pca(drv_pca.run(p, xs, (), rng.randrange(10 ** 6))))   # user resets keep PCACD's windows: outside C01's quantifier
     for i in range(8 * k):
         from ..checks import c19
